@@ -137,8 +137,12 @@ class WriteProxy:
     def __enter__(self):
         return self
 
+    def close(self):
+        Instr.boundary('close', '')          # the buffered bytes reach the file only here
+        return self._real.close()
+
     def __exit__(self, *a):
-        self._real.close()
+        self.close()
         return False
 
     def __getattr__(self, name):
@@ -377,7 +381,7 @@ def op_alphabet():
 
 # ------------------------------------------------------------------ (2) crash points
 
-EXPECTED_ORDER = ['mkstemp', 'fetch', 'read', 'write', 'rename', 'open:r']
+EXPECTED_ORDER = ['mkstemp', 'fetch', 'read', 'write', 'close', 'rename', 'open:r']
 
 
 def crash_points(ctx, prior_ops, target, stream):
